@@ -59,6 +59,7 @@ type c17Info struct {
 	InlineTuples    int  `json:"inline_tuples"`    //
 	Views           int  `json:"views"`            //
 	ParamLocTags    int  `json:"param_loc_tags"`   // method parameters that carry tags
+	ParamMultiTags  int  `json:"param_multi_tags"` // ... two or more tags
 	Rows            int  `json:"rows"`             //
 }
 
@@ -139,13 +140,9 @@ func c17RelValue(v interface{}) interface{} {
 // c17Loc: the position class of a parameter. Path and query parameters are their own classes; a
 // parameter of the signature is "sig" (the relational form may name it after a tag such as ~body or
 // ~header: that naming is an encoding, not content the property lists).
-func c17Loc(loc string) string {
-	switch loc {
-	case "path", "query":
-		return loc
-	}
-	return "sig"
-}
+// c17Loc: the parameter-kind column of a relational row, as is: "path", "query", or for a parameter of the
+// signature its first declared tag ("header", "body", ...), "method" when it has none.
+func c17Loc(loc string) string { return loc }
 
 // ---------- census of the model ----------
 
@@ -244,13 +241,21 @@ func c17ConstraintCell(t *sysl.Type, info *c17Info) interface{} {
 func (c *c17Census) params(app []string, ep *sysl.Endpoint) {
 	one := func(loc string, i int, name string, t *sysl.Type) {
 		c.rows.add("param", app, ep.GetName(), name, loc, i, c17TypeCell(app, t, &c.info), t.GetOpt())
-		if loc == "sig" && len(t.GetAttrs()["patterns"].GetA().GetElt()) > 0 {
+		if loc != "path" && loc != "query" && len(t.GetAttrs()["patterns"].GetA().GetElt()) > 0 {
 			c.info.ParamLocTags++
+			if len(t.GetAttrs()["patterns"].GetA().GetElt()) > 1 {
+				c.info.ParamMultiTags++
+			}
 		}
 		c.meta("param", t.GetAttrs(), app, ep.GetName(), name, loc, i)
 	}
 	for i, p := range ep.GetParam() {
-		one("sig", i, p.GetName(), p.GetType())
+		// the kind of a signature parameter is its first tag in declaration order (docs: [~header, ...]), "method" without one
+		loc := "method"
+		if el := p.GetType().GetAttrs()["patterns"].GetA().GetElt(); len(el) > 0 {
+			loc = el[0].GetS()
+		}
+		one(loc, i, p.GetName(), p.GetType())
 	}
 	for i, p := range ep.GetRestParams().GetUrlParam() {
 		one("path", i, p.GetName(), p.GetType())
